@@ -34,11 +34,11 @@ Definition gen_agrees (s : sig) (st : fstate) (c : call) (ovo ieo : option bool)
 Definition check_functor_case (c : tr) : bool :=
   match c with
   | L [I 0; L [qb]; s; ctor; L [ov; ie]; lates; cl; L [ovo; ieo]; I post] =>
-      match dbool qb, d_sig s, d_call ctor, dbool ov, dbool ie, dlist d_kv lates, d_call cl, dopt dbool ovo, dopt dbool ieo with
+      match dbool qb, d_sig s, d_call ctor, dbool ov, dbool ie, dlist d_late lates, d_call cl, dopt dbool ovo, dopt dbool ieo with
       | Some qb', Some s', Some ctor', Some ov', Some ie', Some lates', Some cl', Some ovo', Some ieo' =>
           match functor_ctor s' ctor' ov' ie' with
           | Ok st =>
-              match late_all {| q_noop_rebind := qb' |} s' st lates' with
+              match late_all_n {| q_noop_rebind := qb' |} s' st lates' with
               | Ok st1 =>
                   let st2 := if Z.eqb post 1 then clone_state st1 else if Z.eqb post 2 then json_state s' st1 else st1 in
                   gen_agrees s' st2 cl' ovo' ieo'
